@@ -181,6 +181,21 @@ def _try_update(ctx):
         has_copy = val(r'^call:RrdpArchive::try_open\(.*\)$') == 'Ok' and val(r'^call:RrdpArchive::try_open\(.*\)@Ok\.0$') == 'Some'
         expired = val(r'^call:RepositoryState::is_expired')
         bbf = val(r'^call:Option::and_then')
+        # `current.as_ref().is_some_and(|(_, state)| !state.is_expired())`: "there is a copy and it has not expired" as one bool
+        isa = None
+        for v, labs in cm.items():
+            mi = re.match(r'^call:Option::is_some_and\(.*\{closure#(\d+)\}.*\)$', v)
+            if mi and len(labs) == 1:
+                outs = [cp.outcome or '' for c in ctx.closures(b) if c.nid.endswith('{closure#%s}' % mi.group(1)) for cp in enumerate_paths(c, ctx.facts)]
+                if outs and all(re.match(r'^Not\(call:RepositoryState::is_expired\(', o) for o in outs):
+                    isa = list(labs)[0]
+        if expired is None and isa is not None:
+            if isa == 'true':
+                has_copy, expired = True, 'false'
+            elif has_copy:
+                expired = 'true'
+        if bbf is None:
+            bbf = val(r'^call:RepositoryState::best_before\(')
         if updated == 'true':
             exp = {'Updated'}
         elif updated == 'false' and has_copy and expired == 'false':
